@@ -1,2 +1,138 @@
+(* C29 — Lite routes the first route whose host pattern matches the cleaned host.
+   Only statements and `exact`; proofs are in Proofs/C29.v, definitions in Model/Glob.v.
+
+   [Matches dot p h gs] is the declarative glob relation over code points ("*" any sequence, "?"
+   exactly one, others literal; gs = text matched by each wildcard).  [dot] is the set of code points
+   a wildcard may consume: [spec_dot] = all (the property), [impl_dot] = all but U+000A (the code,
+   finding C29-1).  Every theorem about the matcher holds for any [dot]. *)
 From Coq Require Import List NArith Bool.
 From Verif Require Import Base.Text Model.Glob Proofs.C29.
+Import ListNotations.
+Open Scope N_scope.
+
+(* "'*' matches any sequence of characters and '?' exactly one": the executable matcher accepts
+   only what the glob relation allows ... *)
+Theorem C29_glob_sound : forall dot p h gs,
+  glob_match dot p h = Some gs -> Matches dot p h gs.
+Proof. exact glob_sound. Qed.
+Print Assumptions C29_glob_sound.
+
+(* ... and everything it allows. *)
+Theorem C29_glob_complete : forall dot p h gs,
+  Matches dot p h gs -> exists gs', glob_match dot p h = Some gs'.
+Proof. exact glob_complete. Qed.
+Print Assumptions C29_glob_complete.
+
+(* "the text each wildcard matched": among all admissible splits the matcher returns the one with
+   lexicographically least group lengths (earlier wildcards match as little as possible), and a
+   split is determined by its lengths, so the returned groups are unique. *)
+Theorem C29_glob_lazy_leftmost : forall dot p h gs gs',
+  glob_match dot p h = Some gs -> Matches dot p h gs' ->
+  lex_le (map (@length N) gs) (map (@length N) gs').
+Proof. exact glob_lazy_leftmost. Qed.
+Print Assumptions C29_glob_lazy_leftmost.
+
+Theorem C29_groups_determined_by_lengths : forall dot p h gs gs',
+  Matches dot p h gs -> Matches dot p h gs' ->
+  map (@length N) gs = map (@length N) gs' -> gs = gs'.
+Proof. exact matches_lengths_unique. Qed.
+Print Assumptions C29_groups_determined_by_lengths.
+
+(* "routed to the first configured route (in configuration order) having a host pattern that
+   matches ... compared case-insensitively": the route search returns route i / pattern p only if p
+   matches the (lowercased) host with the leftmost-lazy groups and NO earlier pattern - of an
+   earlier route or earlier in the same route - matches in any way. *)
+Theorem C29_first_route : forall dot h rs i p gsb,
+  find_route dot h rs = Some (i, p, gsb) ->
+  exists r l1 l2 gs,
+    nth_error rs (N.to_nat i) = Some r /\ fst r = l1 ++ p :: l2
+    /\ gsb = map utf8_encode gs
+    /\ pat_matches dot h p gs
+    /\ (forall gs', pat_matches dot h p gs' -> lex_le (map (@length N) gs) (map (@length N) gs'))
+    /\ (forall q, In q l1 -> forall gs', ~ pat_matches dot h q gs')
+    /\ (forall k r', (k < N.to_nat i)%nat -> nth_error rs k = Some r' ->
+          forall q, In q (fst r') -> forall gs', ~ pat_matches dot h q gs').
+Proof. exact first_route. Qed.
+Print Assumptions C29_first_route.
+
+(* "A host matching no route is closed without dialing any backend": no result means that no
+   pattern of any route matches, and the outcome is class 1 with an empty candidate list. *)
+Theorem C29_no_route_no_dial : forall dot subst raw rs,
+  find_route dot (clean_host raw) rs = None ->
+  (forall r q, In r rs -> In q (fst r) -> forall gs, ~ pat_matches dot (clean_host raw) q gs)
+  /\ route_outcome dot subst raw rs = (1, None, []).
+Proof. exact no_route. Qed.
+Print Assumptions C29_no_route_no_dial.
+
+Theorem C29_found_route_candidates : forall dot subst raw rs i p gs b bs,
+  find_route dot (clean_host raw) rs = Some (i, p, gs) ->
+  snd (nth (N.to_nat i) rs ([], [])) = b :: bs ->
+  route_outcome dot subst raw rs = (0, Some (i, p, gs), map (fun t => subst t gs) (b :: bs)).
+Proof. exact found_route_outcome. Qed.
+Print Assumptions C29_found_route_candidates.
+
+(* "with Forge ... suffixes ... removed": whatever follows the first NUL never influences routing *)
+Theorem C29_clean_host_forge : forall h x, ~ In 0 h -> clean_host (h ++ 0 :: x) = clean_host h.
+Proof. exact clean_host_forge. Qed.
+Print Assumptions C29_clean_host_forge.
+
+(* "the text each wildcard matched replaces $1, $2, ...": spec_subst tokenises the template into
+   literals and references ("$" + maximal digit run naming an existing group); nothing else changes
+   (rendering the tokens gives the template back), references are in range, and for the text of any
+   canonical token list the result is the concatenation of literals and referenced groups -
+   simultaneously, whatever the groups contain. *)
+Theorem C29_subst_leaves_rest_alone : forall n t, render (parse n t) = t.
+Proof. exact parse_render. Qed.
+Print Assumptions C29_subst_leaves_rest_alone.
+
+Theorem C29_subst_refs_in_range : forall n t ds,
+  In (TRef ds) (parse n t) -> valid_index n ds = true.
+Proof. exact parse_refs_valid. Qed.
+Print Assumptions C29_subst_refs_in_range.
+
+Theorem C29_subst_simultaneous : forall gs ts,
+  canonical (N.of_nat (length gs)) ts ->
+  spec_subst (render ts) gs = flat_map (expand gs) ts.
+Proof. exact subst_simultaneous. Qed.
+Print Assumptions C29_subst_simultaneous.
+
+(* The implementation (regexp "." without (?s); sequential ReplaceAll) against the property.
+   Finding 1: equal to the spec matcher on every host without a line feed, different on the probe. *)
+Theorem C29_impl_match_eq_spec_off_trigger : forall s pattern,
+  has_lf s = false -> match_bytes impl_dot s pattern = match_bytes spec_dot s pattern.
+Proof. exact impl_match_eq_spec_off_trigger. Qed.
+Print Assumptions C29_impl_match_eq_spec_off_trigger.
+
+Theorem C29_impl_match_refuted :
+  has_lf host_lf = true
+  /\ match_bytes impl_dot host_lf pat_lf = None
+  /\ match_bytes spec_dot host_lf pat_lf = Some [[97; 10; 98]].
+Proof. exact impl_match_refuted. Qed.
+Print Assumptions C29_impl_match_refuted.
+
+(* Findings 2 and 3: "$2" with ["x";"$1"] and "h$19" with ["x";"y"].  (Agreement of impl_subst and
+   spec_subst off the two triggers is checked exhaustively on a bounded domain only, see
+   Proofs.C29.impl_subst_eq_spec_off_trigger_bounded, and on every generated case by the judge.) *)
+Theorem C29_impl_subst_refuted :
+  (let t := [36; 50] in let gs := [[120]; [36; 49]] in
+   rescans t gs = true /\ impl_subst t gs = [120] /\ spec_subst t gs = [36; 49])
+  /\
+  (let t := [104; 36; 49; 57] in let gs := [[120]; [121]] in
+   ref_then_digit 2 t = true /\ impl_subst t gs = [104; 120; 57] /\ spec_subst t gs = t).
+Proof. exact impl_subst_refuted. Qed.
+Print Assumptions C29_impl_subst_refuted.
+
+(* non-vacuity: a pattern with two admissible splits, the lazy one is chosen; a route list in which
+   the first route does not match, the second route's second pattern does, Forge suffix and dots
+   are removed and $1 is substituted *)
+Example C29_nonvacuous_matches :
+  Matches spec_dot [42; 120; 42] [97; 120; 98; 120; 99] [[97]; [98; 120; 99]]
+  /\ Matches spec_dot [42; 120; 42] [97; 120; 98; 120; 99] [[97; 120; 98]; [99]]
+  /\ glob_match spec_dot [42; 120; 42] [97; 120; 98; 120; 99] = Some [[97]; [98; 120; 99]].
+Proof. exact matches_example. Qed.
+
+Example C29_nonvacuous_route :
+  let rs := [([[120]], [[49]]); ([[97; 42]; [42; 46; 101; 120]], [[36; 49; 58; 50]])] in
+  route_outcome spec_dot spec_subst [66; 46; 69; 88; 46; 0; 70] rs
+  = (0, Some (1, [42; 46; 101; 120], [[98]]), [[98; 58; 50]]).
+Proof. exact first_route_example. Qed.
